@@ -1,10 +1,12 @@
 (* C06 — Ring buffer never deadlocks or loses a wake-up; write, drain and join terminate.
    PARTIAL: the theorems are the no-lost-wake-up and mutual-exclusion invariants of the blocking wait / signal
    protocol (Disruptor/WaitSignal.v), for any number of waiters and signalling threads and any interleaving,
-   spurious wake-ups included. Termination of write / drain / join under fair scheduling is NOT proved; it is
-   explored by the deterministic scheduler (outcome = all threads finished) on every run of the check. *)
+   spurious wake-ups included; and NO DEADLOCK STATE on the single-producer pipeline model (drain / write / join can
+   always complete, Disruptor/Progress.v).  Termination under a fair scheduler is NOT a theorem; it is explored by
+   the deterministic scheduler (outcome = all threads finished) on every run of the check. *)
 From Coq Require Import Arith Lia List.
 From DC Require Import Disruptor.WaitSignal.
+From DC Require Disruptor.Pipeline Disruptor.Progress.
 
 Theorem C06_no_lost_wakeup_partial : forall need s0 s w,
   initial s0 -> reachable need s0 s -> (forall k, sp s k = SDone) ->
@@ -20,6 +22,35 @@ Proof. exact Inv_reachable. Qed.
 Theorem C06_guard_is_exclusive : forall need s0 s a b,
   initial s0 -> reachable need s0 s -> holds_w (wp s a) = true -> holds_w (wp s b) = true -> a = b.
 Proof. exact mutex_exclusive. Qed.
+
+(* ---- progress on the single-producer pipeline model (Disruptor/Pipeline.v + Disruptor/Progress.v) ----------
+   NO DEADLOCK STATE, for every ring size, stage topology, batch size and every reachable state in which no handler
+   has been told to exit: there is a continuation in which every handler has returned from everything published
+   (drain can complete), a write of up to N events completes, and every handler reaches its exit (join).
+   These are possibility statements; termination under a fair scheduler is their informal consequence and is what
+   the deterministic scheduler explores on the implementation. *)
+Theorem C06_drain_possible : forall N H stage last
+  (stage_le : forall h, h < H -> stage h <= last)
+  (stage_nonempty : forall k, k <= last -> exists h, h < H /\ stage h = k) s,
+  Pipeline.reachable N H stage last s -> Progress.no_exit H s ->
+  exists s', Progress.steps N H stage last s s' /\ Progress.pframe s s' /\ forall h, h < H -> Progress.caught_up s' h.
+Proof. exact Progress.drain_possible. Qed.
+
+Theorem C06_write_possible : forall N H stage last
+  (stage_le : forall h, h < H -> stage h <= last)
+  (stage_nonempty : forall k, k <= last -> exists h, h < H /\ stage h = k) s c,
+  Pipeline.reachable N H stage last s -> Progress.no_exit H s -> Pipeline.pp s = Pipeline.PIdle -> 1 <= c <= N ->
+  exists s', Progress.steps N H stage last s s' /\ Pipeline.pp s' = Pipeline.PIdle /\ Pipeline.cursor s' = Pipeline.pnext s + c - 1.
+Proof. exact Progress.write_possible. Qed.
+
+Theorem C06_join_possible : forall N H stage last s,
+  Pipeline.reachable N H stage last s ->
+  exists s', Progress.steps N H stage last s s' /\ forall h, h < H -> Pipeline.hp s' h = Pipeline.HExit.
+Proof. exact Progress.join_possible. Qed.
+
+Print Assumptions C06_drain_possible.
+Print Assumptions C06_write_possible.
+Print Assumptions C06_join_possible.
 
 Print Assumptions C06_no_lost_wakeup_partial.
 Print Assumptions C06_wake_invariant.
